@@ -438,5 +438,8 @@ func c01Child(r *ev.Run, batch int) {
 		p := prng.Derive(r.Seed, "C01", batch, ci)
 		r.LogCase(fmt.Sprintf("C01 batch=%d case=%d", batch, ci))
 		c01Case(r, p, batch, ci)
+		if ci%3 == 0 {
+			c01RefFedCase(r, prng.Derive(r.Seed, "C01ref", batch, ci), batch, ci)
+		}
 	}
 }
